@@ -1,9 +1,233 @@
-"""Public entry points of the VC engine (placeholder until the engine lands)."""
+"""Public entry points of the VC engine."""
+import importlib
+import json
+import os
+import sys
+import time
+import traceback
+
+import z3
+
+from .contracts import Registry
+from .source import SourceIndex, AnchorError, describe
+from .values import Unsupported, EngineError
+from .verifier import Verifier
+from . import solve
+from . import lemmas
+
+CONTRACT_MODULES = ["schedule", "basic_schedules", "multistage"]
+VERIF = os.path.dirname(os.path.dirname(os.path.abspath(__file__)))
+
+
+def build_registry():
+    reg = Registry()
+    if VERIF not in sys.path:
+        sys.path.insert(0, VERIF)
+    for m in CONTRACT_MODULES:
+        mod = importlib.import_module("contracts." + m)
+        mod.register(reg)
+    return reg
+
+
+def generate(repo="/repo", only=None, props=None):
+    """Generate all obligations from the current working tree.
+    Returns (index, reg, per_function list)."""
+    index = SourceIndex(repo)
+    reg = build_registry()
+    out = []
+    for name, c in reg.contracts.items():
+        if c.assumed:
+            continue
+        if only and not any(name.endswith(o) or o in name for o in only):
+            continue
+        if props and not (set(c.props) & set(props)):
+            # obligations of a function may carry other properties than the contract default
+            if not any(set(p or ()) & set(props) for _, _, p in c.ensures) and \
+                    not (c.hooks and set(c.hooks.get("props", ())) & set(props)):
+                continue
+        rec = {"name": name, "contract": c, "obligations": [], "covers": [], "error": None,
+               "status": "ok", "fi": None, "gen_s": 0.0}
+        t0 = time.time()
+        try:
+            if name.startswith("ghost."):
+                _, gmod, gfn = name.split(".", 2)
+                fi = reg.ghost_function(gmod, gfn)
+            else:
+                fi = index.get(name)
+            rec["fi"] = fi
+            v = Verifier(index, reg, fi, c)
+            v.run()
+            rec["obligations"] = v.obligations
+            rec["covers"] = v.covers
+            rec["npaths"] = v.npaths
+        except AnchorError as exc:
+            rec["status"] = "anchor_error"
+            rec["error"] = str(exc)
+        except Unsupported as exc:
+            rec["status"] = "unsupported"
+            rec["error"] = str(exc)
+        except (EngineError, z3.Z3Exception, RecursionError) as exc:
+            rec["status"] = "engine_error"
+            rec["error"] = "%s: %s\n%s" % (type(exc).__name__, exc, traceback.format_exc()[-1500:])
+        rec["gen_s"] = round(time.time() - t0, 2)
+        out.append(rec)
+    return index, reg, out
+
+
+def _decl_names(e, cache):
+    out = set()
+    stack = [e]
+    seen = set()
+    while stack:
+        x = stack.pop()
+        xid = x.get_id()
+        if xid in seen:
+            continue
+        seen.add(xid)
+        if xid in cache:
+            out |= cache[xid]
+            continue
+        if z3.is_app(x) and x.num_args() > 0 and x.decl().kind() == z3.Z3_OP_UNINTERPRETED:
+            out.add(x.decl().name())
+        if z3.is_quantifier(x):
+            stack.append(x.body())
+        else:
+            stack.extend(x.children())
+    cache[e.get_id()] = out
+    return out
+
+
+def attach_spec_axioms(reg, obligations):
+    """Definitions and (inductively proved) lemmas of a spec function are added to exactly
+    those VCs that mention it."""
+    cache = {}
+    for ob in obligations:
+        if getattr(ob, "trivial", False) or getattr(ob, "vacuous", False):
+            continue
+        names = set()
+        for c in ob.pc + [ob.goal]:
+            names |= _decl_names(c, cache)
+        used = sorted(n for n in names if n in reg.z3_definitions)
+        ob.uses_specs = used
+        for n in used:
+            for label, f in reg.z3_definitions[n] + reg.z3_lemmas.get(n, []):
+                ob.pc.append(f)
+
+
+def verify(repo="/repo", only=None, props=None, timeout_s=20, verbose=False):
+    index, reg, recs = generate(repo, only, props)
+    all_obs = []
+    for r in recs:
+        all_obs.extend(r["obligations"])
+    attach_spec_axioms(reg, all_obs)
+    lemma_obs = lemmas.obligations(reg) if any(getattr(o, "uses_specs", None) for o in all_obs) else []
+    all_obs.extend(lemma_obs)
+    t0 = time.time()
+    res = solve.discharge(all_obs, timeout_s=timeout_s)
+    solve_wall = time.time() - t0
+    # vacuity covers
+    cov_pcs, cov_keys = [], []
+    for r in recs:
+        for site, pc in r["covers"]:
+            cov_pcs.append(pc)
+            cov_keys.append((r["name"], site))
+    cov = solve.check_sat(cov_pcs, timeout_s=5)
+    covers = {}
+    for (fn, site), status in zip(cov_keys, cov):
+        key = "%s#%s" % (fn, site)
+        prev = covers.get(key)
+        # a site is reachable if any path to it is satisfiable
+        if prev == "sat":
+            continue
+        covers[key] = status if prev is None or status == "sat" else prev
+    return index, reg, recs, all_obs, res, covers, solve_wall
+
+
+def summarize(index, reg, recs, all_obs, res, covers, props=None):
+    """Obligation list in the format vcheck/cli.py expects."""
+    obligations = []
+    functions = []
+    engine_error = None
+    for r in recs:
+        if r["fi"] is not None:
+            d = describe(r["fi"], index)
+            d["status"] = r["status"]
+            d["paths"] = r.get("npaths", 0)
+            d["obligations"] = len(r["obligations"])
+            functions.append(d)
+        if r["status"] == "anchor_error":
+            obligations.append({"name": r["name"] + "#anchor", "props": list(r["contract"].props),
+                                "status": "anchor_error", "note": r["error"], "time_s": 0.0,
+                                "function": r["name"], "clause": "sidecar anchors match the source"})
+        elif r["status"] == "unsupported":
+            obligations.append({"name": r["name"] + "#unsupported", "props": list(r["contract"].props),
+                                "status": "unknown", "note": "not under vc: " + r["error"], "time_s": 0.0,
+                                "function": r["name"], "clause": "function within the verified subset"})
+        elif r["status"] == "engine_error":
+            engine_error = "%s: %s" % (r["name"], r["error"])
+    for ob, rs in zip(all_obs, res):
+        status = {"unsat": "discharged", "sat": "failed", "unknown": "unknown",
+                  "vacuous": "vacuous"}[rs["status"]]
+        obligations.append({
+            "name": ob.name, "props": list(ob.props), "status": status, "backend": rs["backend"],
+            "time_s": rs["time_s"], "model": rs["model"], "clause": ob.clause, "loc": ob.loc,
+            "function": ob.function, "kind": ob.kind, "path": ob.path_id,
+            "solver_output": None if rs["status"] != "unknown" else json.dumps(rs["model"])})
+    if props:
+        obligations = [o for o in obligations if set(o["props"]) & set(props)]
+    # unreachable yield / return sites: vacuity
+    dead = [k for k, v in covers.items() if v == "unsat"]
+    return {"obligations": obligations, "functions": functions, "engine_error": engine_error,
+            "covers": {"sites": len(covers), "reachable": sum(1 for v in covers.values() if v == "sat"),
+                       "unreachable": dead},
+            "assumptions": [], "delegated_to_bounded": []}
 
 
 def run_property(prop, tier="quick", seed=0, repo="/repo"):
-    return {"obligations": [], "functions": [], "no_vc_expected": True, "assumptions": []}
+    timeout = 20 if tier == "quick" else 60
+    index, reg, recs, all_obs, res, covers, wall = verify(repo=repo, props=[prop], timeout_s=timeout)
+    out = summarize(index, reg, recs, all_obs, res, covers, props=[prop])
+    out["assumptions"] = ["assumed contract: %s (%s)" % (n, c.note) for n, c in reg.contracts.items()
+                          if c.assumed]
+    if not out["obligations"]:
+        out["no_vc_expected"] = True
+    return out
 
 
 def replay(rp, repo="/repo"):
     return 0
+
+
+def main(argv):
+    import argparse
+    ap = argparse.ArgumentParser()
+    ap.add_argument("--only", nargs="*")
+    ap.add_argument("--props", nargs="*")
+    ap.add_argument("--repo", default="/repo")
+    ap.add_argument("--timeout", type=float, default=20)
+    ap.add_argument("-v", action="store_true")
+    a = ap.parse_args(argv)
+    t0 = time.time()
+    index, reg, recs, all_obs, res, covers, wall = verify(a.repo, a.only, a.props, a.timeout)
+    for r in recs:
+        print("%-70s %-12s paths=%-4s obligations=%-4d gen=%.1fs %s" % (
+            r["name"], r["status"], r.get("npaths", "-"), len(r["obligations"]), r["gen_s"],
+            (r["error"] or "")[:300]))
+    bad = 0
+    for ob, rs in zip(all_obs, res):
+        if rs["status"] != "unsat" or a.v:
+            print("  %-8s %-90s %5.2fs %s %s" % (rs["status"], ob.name, rs["time_s"], ob.loc,
+                                                 "" if rs["status"] == "unsat" else (ob.clause or "")))
+            if rs["status"] == "sat":
+                print("           model:", {k: v for k, v in (rs["model"] or {}).items()
+                                            if not k.startswith("k!")})
+        if rs["status"] != "unsat":
+            bad += 1
+    dead = [k for k, v in covers.items() if v != "sat"]
+    print("obligations=%d discharged=%d not=%d  cover sites=%d unreachable/unknown=%s  wall=%.1fs (solve %.1fs)" % (
+        len(all_obs), len(all_obs) - bad, bad, len(covers), dead, time.time() - t0, wall))
+    return 0 if bad == 0 else 1
+
+
+if __name__ == "__main__":
+    sys.exit(main(sys.argv[1:]))
